@@ -420,6 +420,35 @@ def reset_typestate(c, chk, model):
         chk.ok('R1.3', 'state %d x "+="' % assign_state, 'accepted only for lists; clears CFGF_RESET', sample=True)
     elif not napp:
         chk.fail('R1.3', 'append-missing', c.where(model.fn), '"+=" is never accepted')
+    # (b') the element counter that decides "= {}" starts at 0 for every list assignment and counts every stored element
+    for tokname in ('=', '+='):
+        for tr in model.transitions(assign_state, T[tokname]):
+            if tr.kind != 'next' or not kind_facts(tr).get('list'):
+                continue
+            nv = tr.next.get('num_values')
+            if nv != sym.C0:
+                chk.fail('R1.3', 'element-counter-not-reset:%s' % tokname, c.where(model.fn),
+                         'a list assignment ("%s") does not restart the element counter (it becomes %s): a later "= {}" is not recognised as '
+                         'empty when an earlier list in the same section had elements, and keeps the old values' % (tokname, sym.render(nv) if nv else 'unchanged'),
+                         witness=[tr.describe()])
+                break
+        else:
+            continue
+        break
+    else:
+        chk.ok('R1.3', 'element counter', 'reset to 0 by "=" and "+=" on a list', sample=False)
+    counted = False
+    for s_ in model.states:
+        for tr in model.transitions(s_, T['STR']):
+            if tr.kind == 'next' and 'cfg_setopt' in tr.call_names() and kind_facts(tr).get('list') and not is_failure_variant(tr):
+                nv = tr.next.get('num_values')
+                if nv == ('bin', 'add', ('p', 'num_values'), ('c', 1)):
+                    counted = True
+                elif nv in (None, ('p', 'num_values')):
+                    chk.fail('R1.3', 'element-not-counted:state%d' % s_, c.where(model.fn),
+                             'state %d stores a list element without counting it: "= {x}" would be treated like "= {}"' % s_, witness=[tr.describe()])
+    if counted:
+        chk.ok('R1.3', 'element counting', 'every stored list element increments the counter')
     # (c) consumers
     for fname in ('cfg_setopt', 'cfg_opt_getval'):
         fn = c.need(fname)
